@@ -1,8 +1,12 @@
 --------------------------- MODULE WriterContract ---------------------------
 (***************************************************************************)
 (* The io.Writer contract of every writer zap provides, as a case table:   *)
-(* (writer kind, payload class) -> required result.  One-step behaviours;  *)
-(* every case becomes one implementation test.                             *)
+(* (writer kind, what the writer accepted before, payload class) ->        *)
+(* required result.  The writers that split or buffer their input          *)
+(* (zapio.Writer keeps an unterminated line, BufferedWriteSyncer a buffer) *)
+(* carry state from earlier Writes, so the observed Write is preceded by   *)
+(* nothing, by an unterminated fragment or by a complete line; every case  *)
+(* becomes one implementation test.                                        *)
 (***************************************************************************)
 EXTENDS Integers, Sequences, TLC, Json
 
@@ -11,13 +15,15 @@ Writers == {"zapio", "zapio-disabled", "stdlog", "stdlog-at", "testing", "testin
 Payloads == {"empty", "spaces", "text", "text-nl", "text-nlnl", "nl", "nlnl", "lead-space-text-trail", "multi-line",
              "crlf", "tabs-nl", "large", "large-nl", "binary"}
 
-VARIABLES w, p, res
-vars == <<w, p, res>>
-Init == w \in Writers /\ p \in Payloads /\ res = [n |-> "none", err |-> FALSE]
+Priors == {"nothing", "fragment", "fragments", "line"}
+
+VARIABLES w, prior, p, res
+vars == <<w, prior, p, res>>
+Init == w \in Writers /\ prior \in Priors /\ p \in Payloads /\ res = [n |-> "none", err |-> FALSE]
 \* what the code does: every one of them accepts all of p and says so
-Call == res.n = "none" /\ res' = [n |-> "len", err |-> FALSE] /\ UNCHANGED <<w, p>>
+Call == res.n = "none" /\ res' = [n |-> "len", err |-> FALSE] /\ UNCHANGED <<w, prior, p>>
 Spec == Init /\ [][Call]_vars
 \* C13: never a short count without an error; len(p) with nil error once everything was accepted
 Contract == res.n # "none" => (res.n = "len" /\ ~res.err)
-EmitBeh == IF res.n # "none" THEN PrintT("@@BEH " \o ToJson([w |-> w, p |-> p, res |-> res])) ELSE TRUE
+EmitBeh == IF res.n # "none" THEN PrintT("@@BEH " \o ToJson([w |-> w, prior |-> prior, p |-> p, res |-> res])) ELSE TRUE
 =============================================================================
